@@ -460,12 +460,12 @@ func (g *Gen) genC16(n int) error {
 			f2 := g.fresh("f")
 			g.emit("persist %s %s", s, f2)
 			fn := g.pick([]string{"vecA", "vecB"})
-			for r := 0; r < g.tierN(12, 40); r++ {
+			for r := 0; r < g.tierN(40, 150); r++ {
 				o2 := g.fresh("o")
 				g.emit("open %s %s", o2, f2)
 				g.alias(o2, s)
 				hp := g.fresh("h")
-				g.emit("par %d rounds=1 ordered=1", 4+g.r.Intn(5))
+				g.emit("par %d rounds=1 ordered=1", 8+g.r.Intn(9))
 				g.emit("vopen %s %s %s filt=g ex=nil", hp, o2, fn)
 				g.emit("vsearch %s q=%s k=%d", hp, g.randQuery(2), nd*3)
 				g.emit("vclose %s", hp)
